@@ -7,6 +7,10 @@ NOTE = ("Trusted: Coq 8.16.1 kernel and vm_compute (no native_compute); no axiom
         "context'); the go2v translator; the Go harness/oracle; Go toolchain and third-party libraries. See DESIGN.md section 7.")
 SOURCE_COMMITS = ["05f9ccb verif hooks: export template rendering behind the 'verif' build tag"]
 CLAIMED = {
+ "C14": dict(ref="5 C14", technique="Rocq/Coq proof of the bounded read loop + allocation measurement on the implementation (partial by nature)",
+   text="C14_bounded / _independent_of_ratio: for every stream of chunks the LimitReader/ReadAll loop materialises at most cap+1 bytes and rejects exactly the streams longer than cap; C14_structure ties cap and "
+        "the use of io.LimitReader to xml.go (facts). PARTIAL: allocation is a runtime fact - the harness measures TotalAlloc around InflateAndDecode and around SSO / logout requests for payloads inflating to "
+        "1 MiB .. 128 MiB (thorough 1 GiB) with padding in comments, text, attributes or after the root, and compares accept/reject and returned length with the model."),
  "C19": dict(ref="5 C19", technique="Rocq/Coq proof about go2v-generated dynamicIssuer and a model of ValidateIssuer over url.Parse components + in-Coq correspondence",
    text="C19_static (accept implies host, https or http-when-insecure, no ? or # anywhere in the string), C19_dynamic (about the Gallina go2v regenerates from context.go), C19_derived and "
         "C19_host_selection hold for all strings / header results; url.Parse and the Forwarded-header parser are oracles whose results the harness supplies. ValidateIssuer, NewProvider and the entityID "
